@@ -464,7 +464,7 @@ fn monitor_cell(out: &mut Out, phase: u8, c: C, variant: &str, k: usize, who: Wh
     let replay = cell_replay(phase, c, variant, k, who, sib);
     out.monitor_evals += 1;
     if !r.frame_ok {
-        out.monitor_fail("C16", &format!("{} {} by {} (phase {phase}) was rejected but storage or balances changed", c.coq(), variant, who.coq()), replay.clone());
+        mfail(out, "C16", &format!("{} {} by {} (phase {phase}) was rejected but storage or balances changed", c.coq(), variant, who.coq()), replay.clone());
     }
     if let Some(need) = property_need(c, variant) {
         let rightful = match need { Need::Owner => who == owner_who(c, phase), Need::SelfOnly => who == Who::SelfC, Need::DesignatedOnly => who == Who::Designated,
@@ -473,11 +473,11 @@ fn monitor_cell(out: &mut Out, phase: u8, c: C, variant: &str, k: usize, who: Wh
             if c == C::Router && variant == "AssertMinimumReceive" {
                 out.known_hit("C16", KNOWN_AMR, &format!("router AssertMinimumReceive accepted from {} (no sender check)", who.coq()), replay.clone());
             } else {
-                out.monitor_fail("C16", &format!("{} {} accepted from {} in phase {phase}: only {:?} may perform it", c.coq(), variant, who.coq(), need), replay.clone());
+                mfail(out, "C16", &format!("{} {} accepted from {} in phase {phase}: only {:?} may perform it", c.coq(), variant, who.coq(), need), replay.clone());
             }
         }
         if rightful && !r.accepted {
-            out.monitor_fail("C16", &format!("{} {} rejected for its rightful caller {} in phase {phase} ({})", c.coq(), variant, who.coq(), r.err), replay.clone());
+            mfail(out, "C16", &format!("{} {} rejected for its rightful caller {} in phase {phase} ({})", c.coq(), variant, who.coq(), r.err), replay.clone());
         }
     }
 }
@@ -519,7 +519,7 @@ pub fn run(args: &Args) {
         let x = world16(ph);
         for c in &x.failed_transfers {
             out.monitor_evals += 1;
-            out.monitor_fail("C16", &format!("{}: the owner's own ownership transfer to a new owner was rejected", c.coq()),
+            mfail(&mut out, "C16", &format!("{}: the owner's own ownership transfer to a new owner was rejected", c.coq()),
                 json!({"kind": "ownership_history", "contract": c.coq(), "initial_owner": if c.is_child() { 5 } else { 0 }, "attempts": [[if c.is_child() { 5 } else { 0 }, 1]],
                        "note": "the hand-over performed while deploying the after-transfer world (children: through their factory) failed"}));
         }
@@ -531,7 +531,7 @@ pub fn run(args: &Args) {
         let have: std::collections::BTreeSet<&str> = payloads(&probe, c, &admin()).iter().map(|p| p.variant).collect();
         for v in &inv {
             out.monitor_evals += 1;
-            if !have.contains(v.as_str()) { out.monitor_fail("C16", &format!("{} has an ExecuteMsg variant {} the matrix has no payload for", c.coq(), v), json!({"kind": "inventory", "contract": c.coq(), "variant": v})); }
+            if !have.contains(v.as_str()) { mfail(&mut out, "C16", &format!("{} has an ExecuteMsg variant {} the matrix has no payload for", c.coq(), v), json!({"kind": "inventory", "contract": c.coq(), "variant": v})); }
         }
         let term = format!("({}, {})", c.coq(), coqlist(&inv.iter().map(|v| format!("\"{}\"%string", v)).collect::<Vec<_>>()));
         out.case("c16_inv", &term, &["1".to_string()], json!({"kind": "inventory", "contract": c.coq(), "variants": inv}));
@@ -625,11 +625,11 @@ fn run_one_history(out: &mut Out, c: C, h: &[(i64, Option<i64>)], record: bool) 
         let expect_accept = *sender == owner;
         let expect_owner = if expect_accept { newo.unwrap_or(owner) } else { owner };
         if accepted != expect_accept || reported != expect_owner {
-            out.monitor_fail("C16", &format!("{} ownership: attempt by #{} (owner #{}) accepted={} and the contract now reports owner #{}", c.coq(), sender, owner, accepted, reported), replay.clone());
+            mfail(out, "C16", &format!("{} ownership: attempt by #{} (owner #{}) accepted={} and the contract now reports owner #{}", c.coq(), sender, owner, accepted, reported), replay.clone());
             ok_all = false;
         }
         if !accepted && full_snapshot(&x) != before {
-            out.monitor_fail("C16", &format!("{} ownership: rejected attempt by #{} changed storage or balances", c.coq(), sender), replay.clone());
+            mfail(out, "C16", &format!("{} ownership: rejected attempt by #{} changed storage or balances", c.coq(), sender), replay.clone());
             ok_all = false;
         }
         owner = reported;
